@@ -64,9 +64,16 @@ def table():
     return _TABLE
 
 
+LPAE = 7.5        # pseudo version: ARMv7 with the Large Physical Address Extension (64-bit single-copy LDRD/STRD path)
+
+
+def env_cfg(ver):
+    return {"arch_version": 7, "have_lpae": True} if ver == LPAE else {"arch_version": ver}
+
+
 def env(ver):
     if ver not in _ENVS:
-        _ENVS[ver] = semcheck.SemEnv({"arch_version": ver})
+        _ENVS[ver] = semcheck.SemEnv(env_cfg(ver))
     return _ENVS[ver]
 
 
@@ -78,6 +85,9 @@ def cfgs(ver):
 def plan(tier):
     rows = rows_ldst.ROWS
     shards = [(ri, ver, tier) for ri in range(len(rows)) for ver in VERS]
+    # the doubleword forms again with LPAE: the implementation then takes its 8-byte access path, which must still equal
+    # the two word transfers of the pseudocode
+    shards += [(ri, LPAE, tier) for ri in range(len(rows)) if rows[ri].cls.startswith(("Ldrd", "Strd", "Ldrexd", "Strexd"))]
     return {
         "shards": shards,
         "rule": "for each of the %d load/store encoding rows x arch version: S1 (P/U/W x base x alignment x E x A x U x data), "
@@ -89,7 +99,7 @@ def plan(tier):
                    "immediates": [hex(i) for i in IMM_ALPHA] + ["field max"],
                    "shifts": "LSL/LSR/ASR/ROR x imm5 {0,1,2,31} (imm5=0: LSL#0, LSR#32, ASR#32, RRX)",
                    "offset_register_values": [hex(v) for v in OFFVALS], "E": [0, 1], "SCTLR.A": [0, 1],
-                   "SCTLR.U": "0,1 on v6; 1 on v7 (RAO)", "versions": list(VERS), "modes": ["usr", "svc"],
+                   "SCTLR.U": "0,1 on v6; 1 on v7 (RAO)", "versions": list(VERS) + ["7+LPAE for the doubleword rows"], "modes": ["usr", "svc"],
                    "pc_targets_low_bits": ["00", "01", "11"], "tier": tier},
         "exhaustive": True,
         "assumptions": ["cond = AL (conditions are C05)", "MPU off, flat memory (protection is C14/C15)",
@@ -408,7 +418,7 @@ def run_shard(arg):
 
 def replay(doc):
     r = doc["replay"]
-    e = semcheck.SemEnv({"arch_version": r["ver"]})
+    e = semcheck.SemEnv(env_cfg(r["ver"]))
     row = [x for x in rows_ldst.ROWS if x.cls == r["cls"]][0]
     f = {k: int(v) for k, v in r["fields"].items()}
     regvals = {int(k): v for k, v in r["regvals"].items()}
